@@ -118,6 +118,10 @@ package xml
 
 //@ func Lexer.shiftEndTag
 //@   preserves[S] scanInv(l)
+// ETag ::= '</' Name S? '>': all white space between the name and '>' is dropped from Text(), and the token runs to the '>'
+//@   ensures[F,C11] @name-trimmed: len(l.text) > 0 ==> !isXMLWS(l.text[len(l.text)-1])
+//@   ensures[F,C11,local] @extent: forall(k, old(l.r.pos), l.r.pos - 1, l.r.buf[k] != '>')
+//@   loop 1 invariant[F] forall(k, old(l.r.pos), l.r.pos, l.r.buf[k] != '>')
 //@   ensures[F,C11] @no-nul: forall(k, old(l.r.pos), l.r.pos, l.r.buf[k] != 0)
 //@   loop * candidate[F] forall(k, old(l.r.pos), l.r.pos, l.r.buf[k] != 0)
 //@   ensures[T]  sameMem(result, l.r.buf[old(l.r.start):l.r.pos]) && cap(result) == len(result)
